@@ -15,6 +15,7 @@ import (
 	gcl "github.com/platinummonkey/go-concurrency-limits/grpc"
 	"github.com/platinummonkey/go-concurrency-limits/limit"
 	"github.com/platinummonkey/go-concurrency-limits/limiter"
+	"github.com/platinummonkey/go-concurrency-limits/measurements"
 	reg "github.com/platinummonkey/go-concurrency-limits/metric_registry/gometrics"
 	"github.com/platinummonkey/go-concurrency-limits/strategy"
 )
@@ -194,4 +195,23 @@ func TestGrpcSend(t *testing.T) {
 		return ss.SendMsg(1)
 	})
 	t.Logf("after one SendMsg: recvLimiter acquires=%d sendLimiter acquires=%d", recv.n, send.n)
+}
+
+// TestMinimumUpdateLosesSample: a sample added while Update runs its operation. Before 6bf0160 Update
+// read the value (0 = unset), released the lock, and then Add-ed the transformed value, so the
+// sample 1 added in between was replaced by 0 again ("Get()=0"). Now Update holds the write lock
+// across the operation: the Add waits and the minimum is 1.
+func TestMinimumUpdateLosesSample(t *testing.T) {
+	m := &measurements.MinimumMeasurement{}
+	done := make(chan struct{})
+	m.Update(func(v float64) float64 {
+		go func() { m.Add(1); close(done) }()
+		select {
+		case <-done: // unfixed code: the Add gets in between the read and the write-back
+		case <-time.After(200 * time.Millisecond): // fixed code: the Add waits for the lock
+		}
+		return v
+	})
+	<-done
+	t.Logf("Add(1) racing Update(identity) on an empty MinimumMeasurement: Get()=%v (1 expected; 0 = sample lost)", m.Get())
 }
